@@ -32,6 +32,14 @@ structure SRule where
   since : Nat       -- admissions with sequence number ≥ since are visible to a private window
   deriving Inhabited
 
+/-- Spec-level circuit breaker: the documented machine over the exact windowed counts of its completion history -/
+structure SBreaker where
+  rule : BRule
+  state : BState := .closed
+  deadline : Nat := 0
+  hist : List (Nat × Bool) := []        -- completions since the last reset: (time ms, counted as slow/error)
+  deriving Inhabited
+
 structure SpecSt where
   flow : List (String × List SRule) := []
   iso : List (String × List IsoRule) := []
@@ -48,6 +56,8 @@ structure SpecSt where
   hsOpen : List (Nat × List String) := []              -- entry -> reference keys whose in-flight count it raised
   hsAdm : List (String × Nat × Nat) := []              -- reference key -> (time of first request, tokens admitted since)
   hsLast : List (String × Nat) := []                   -- reference key -> scheduled time (ms) of the last admitted request (throttling)
+  brs : List (String × List SBreaker) := []            -- Spec breakers per resource, implementation order
+  brHooks : List (Nat × List String) := []             -- entry -> breakers it probes
   thrN : List (String × List World.FlowSpec) := []     -- resources all of whose flow rules are direct/throttling (implementation order)
   thrLast : List (String × Nat) := []                  -- resource/rule -> scheduled time (ns) of the last admitted request
   deriving Inhabited
@@ -89,6 +99,48 @@ def specSysObs (sp : SpecSt) (t : Nat) : SysObs :=
     load := sp.load, cpu := sp.cpu,
     maxComplete := F64.mul (F64.div (F64.mul (F64.ofNat xb) (F64.ofNat 2)) (F64.ofNat 1000)) (F64.ofNat 1000),
     minRt := F64.ofNat (windowMinRt 500 evs lo hi) }
+
+/-! ### circuit-breaker Spec: the Closed / Open / Half-Open machine over exact windowed counts -/
+
+/-- counts of the completions whose bucket lies in the statistic window ending now -/
+def SBreaker.counts (b : SBreaker) (now : Nat) : Nat × Nat :=
+  let g := b.rule.geo
+  let hi := now - now % g.L
+  let lo := hi - b.rule.ivl + g.L
+  let inw := b.hist.filter (fun e => lo ≤ e.1 - e.1 % g.L && e.1 - e.1 % g.L ≤ hi)
+  ((inw.filter (·.2)).length, inw.length)
+
+/-- the breakers of a resource at an entry request: (breakers', refused?, notifications, probing breakers) -/
+def specBrEnter : List SBreaker → Nat → List SBreaker × Bool × List BEvent × List String
+  | [], _ => ([], false, [], [])
+  | b :: rest, now =>
+    match b.state with
+    | .closed =>
+      let (r', ref, ev, pr) := specBrEnter rest now
+      (b :: r', ref, ev, pr)
+    | .halfOpen => (b :: rest, true, [], [])
+    | .opn =>
+      if now ≥ b.deadline then
+        let (r', ref, ev, pr) := specBrEnter rest now
+        ({ b with state := .halfOpen } :: r', ref, ⟨.halfOpen, .opn, b.rule.id, "-"⟩ :: ev, b.rule.id :: pr)
+      else (b :: rest, true, [], [])
+
+/-- a completion (response time `rt`, error flag) observed at `now` -/
+def SBreaker.complete (b : SBreaker) (now rt : Nat) (err : Bool) : SBreaker × List BEvent :=
+  let hit := match b.rule.strategy with | .slowRatio => decide (rt > b.rule.maxRt) | _ => err
+  let b := { b with hist := (now, hit) :: b.hist }
+  let (target, total) := b.counts now
+  match b.state with
+  | .halfOpen =>
+    if hit then ({ b with state := .opn, deadline := now + b.rule.retryMs }, [⟨.opn, .halfOpen, b.rule.id, "1"⟩])
+    else ({ b with state := .closed, hist := [] }, [⟨.closed, .halfOpen, b.rule.id, "-"⟩])
+  | .closed =>
+    let (trip, snap) := match b.rule.strategy with
+      | .errorCount => (decide (total ≥ b.rule.minReq) && decide (target ≥ b.rule.thr.toNatFloor), toString target)
+      | _ => let ratio := F64.div (F64.ofNat target) (F64.ofNat total)
+             (decide (total ≥ b.rule.minReq) && !F64.lt ratio b.rule.thr, Breaker.snapStr ratio)
+    if trip then ({ b with state := .opn, deadline := now + b.rule.retryMs }, [⟨.opn, .closed, b.rule.id, snap⟩]) else (b, [])
+  | .opn => (b, [])
 
 /-! ### hotspot Spec: every parameter value has its own, isolated reference controller -/
 
@@ -395,13 +447,17 @@ def stepCase (st : St) (v : Verdict) (i : Nat) (opText obs : String) : St × Ver
         (st, v.setDiff s!"step={i} op=[{opText}] breakers held by the implementation are not the loaded rules: [{obs}]")
       else
         let rules' := reorder (·.id) rules ids
-        ({ w := w.loadBr res rules', sp := { sp with other := res :: sp.other } }, v.addTag "breaker-rules")
+        let sbs : List SBreaker := rules'.map (fun r => { rule := r })
+        ({ w := w.loadBr res rules', sp := { sp with other := res :: sp.other, brs := World.update sp.brs res sbs } }, v.addTag "breaker-rules")
     | _, _ => bad "bad-op"
   | "br.state" =>
     match op.str "res" with
     | .ok res =>
       let m := ",".intercalate ((w.breakers res).map (fun b => s!"{b.rule.id}:{b.state.toStr}"))
-      (st, v.expect i opText s!"states={m}" obs)
+      let v := v.expect i opText s!"states={m}" obs
+      let sm := ",".intercalate (((World.lookup sp.brs res).getD []).map (fun b => s!"{b.rule.id}:{b.state.toStr}"))
+      let v := if s!"states={sm}" != obs then v.setViol s!"step={i} breaker states {obs} differ from the state machine's {sm}" else v
+      (st, v)
     | _ => bad "bad-op"
   | "build" =>
     match op.nat "e", op.str "res", op.natD "batch" 1 with
@@ -418,8 +474,35 @@ def stepCase (st : St) (v : Verdict) (i : Nat) (opText obs : String) : St × Ver
       let obs := if obsFull.startsWith "pass" then "pass" else obsFull
       let v := if sp.other.contains res then v else
         match specBuild sp res t batch inbound obs with | some m => v.setViol s!"step={i} {m}" | none => v
+      -- circuit-breaker Spec
+      let (sp, v) : SpecSt × Verdict := match World.lookup sp.brs res with
+        | none => (sp, v)
+        | some sbs =>
+          let dtObs := (obsField obsFull "dt").toNat?.getD 0
+          let nowB := (w.nowNs + dtObs) / 1000000
+          let (sbs1, refused, ev1, probes) := specBrEnter sbs nowB
+          let blockedObs := obs != "pass"
+          -- a probe whose entry is rejected (by this or any other rule) sends its breaker back to Open
+          let (sbs2, ev2) := if blockedObs then
+              sbs1.foldl (fun (acc : List SBreaker × List BEvent) (b : SBreaker) =>
+                if probes.contains b.rule.id && b.state == BState.halfOpen then
+                  (acc.1 ++ [{ b with state := BState.opn }], acc.2 ++ [(⟨.opn, .halfOpen, b.rule.id, "1"⟩ : BEvent)])
+                else (acc.1 ++ [b], acc.2)) ([], [])
+            else (sbs1, [])
+          let expEv := evStr (ev1 ++ ev2)
+          let obsEv := let e := obsField obsFull "ev"; if e == "" then "" else " ev=" ++ e
+          let v := if refused && !blockedObs then v.setViol s!"step={i} breaker: request admitted while a breaker is Open before its retry deadline or Half-Open"
+            else if refused && obsField obs "type" != "CircuitBreaking" then v.setViol s!"step={i} breaker: refusal reported with block type {obsField obs "type"}"
+            else if !refused && obsField obs "type" == "CircuitBreaking" then v.setViol s!"step={i} breaker: request rejected although every breaker is Closed or its retry deadline has passed"
+            else if expEv != obsEv then v.setViol s!"step={i} breaker: notifications [{obsEv}] differ from the state machine's [{expEv}]"
+            else v
+          let v := if refused then v.addTag "breaker-reject" else v
+          let v := if !probes.isEmpty then v.addTag "breaker-probe" else v
+          let v := if !ev2.isEmpty then v.addTag "breaker-probe-rejected" else v
+          ({ sp with brs := World.update sp.brs res sbs2,
+                     brHooks := if blockedObs then sp.brHooks else (eid, probes) :: sp.brHooks }, v)
       -- flow throttling Spec, when the resource carries only direct/throttling flow rules and nothing else
-      let (sp, v) := match World.lookup sp.thrN res with
+      let (sp, v) : SpecSt × Verdict := match World.lookup sp.thrN res with
         | some rs =>
           if !(w.isoRules res).isEmpty || !(w.hsCtrls res).isEmpty || !(w.breakers res).isEmpty || (!w.sys.isEmpty && inbound) then (sp, v) else
           let dtObs := (obsField obsFull "dt").toNat?.getD 0
@@ -484,6 +567,22 @@ def stepCase (st : St) (v : Verdict) (i : Nat) (opText obs : String) : St × Ver
       match w.exit eid err with
       | some w' =>
         let v := v.expect i opText ("ok" ++ evStr (w'.log.drop w.log.length)) obs
+        let (sp, v) : SpecSt × Verdict := match sp.open_.find? (fun e => e.1 == eid) with
+          | some (_, res, _, _, start) =>
+            (match World.lookup sp.brs res with
+            | none => (sp, v)
+            | some sbs =>
+              let (sbs', evs) := sbs.foldl (fun (acc : List SBreaker × List BEvent) (b : SBreaker) =>
+                let (b', ev) := b.complete t (t - start) err
+                (acc.1 ++ [b'], acc.2 ++ ev)) ([], [])
+              let expEv := evStr evs
+              let obsEv := let e := obsField obs "ev"; if e == "" then "" else " ev=" ++ e
+              let v := if expEv != obsEv then v.setViol s!"step={i} breaker: notifications on completion [{obsEv}] differ from the state machine's [{expEv}]" else v
+              let v := if evs.any (fun (e : BEvent) => e.to_ == BState.opn && e.prev == BState.closed) then v.addTag "breaker-open" else v
+              let v := if evs.any (fun (e : BEvent) => e.to_ == BState.closed) then v.addTag "breaker-close" else v
+              let v := if evs.any (fun (e : BEvent) => e.to_ == BState.opn && e.prev == BState.halfOpen) then v.addTag "breaker-reopen" else v
+              ({ sp with brs := World.update sp.brs res sbs' }, v))
+          | none => (sp, v)
         let sp := match sp.hsOpen.find? (fun e => e.1 == eid) with
           | some (_, keys) =>
             let sp := keys.foldl (fun (sp : SpecSt) (ka : String) =>
